@@ -350,6 +350,18 @@ def case_view_history(ctx, r, B):
                 ctx.fail('property', site, 'in a history with views and conversions', f'after {call}: data holds {Pd.nz()}, expected {ref.P.nz()}',
                          repro=repro(expected_state_src()))
                 return
+            # the split itself: the model's iter_safe_relabels (Lean: iter_safe_relabels_split_is_safe) against dimod's, sub-mapping for sub-mapping
+            subs_real = '|'.join((','.join(f'{lab(a_)}>{lab(b_)}' for a_, b_ in sub.items()) or '.') for sub in dimod.utilities.iter_safe_relabels(mp, cur))
+            B.add(f'saferelabels {labs(cur)} ' + ','.join(f'{lab(a_)}>{lab(b_)}' for a_, b_ in mp.items()), 'ok ' + subs_real,
+                  'utilities.iter_safe_relabels', 'swap' if set(mp) == set(mp.values()) else 'fresh labels', f'iter_safe_relabels({mp!r}, {cur!r})')
+            ctx.tick('iter_safe_relabels vs model')
+            if r.random() < .5:
+                # the whole call in the model: it splits the mapping itself and applies every pair
+                lines.append(f'lb {ref.vt} relabelmap ' + ','.join(f'{lab(a_)}>{lab(b_)}' for a_, b_ in mp.items()))
+                expects.append('ok ' + state_line(m))
+                metas.append((site, 'whole mapping in the model'))
+                ctx.tick(site + ' (model splits the mapping)')
+                continue
             for j_, (a_, b_) in enumerate(steps):
                 lines.append(f'lb {ref.vt} relabel {lab(a_)} {lab(b_)}')
                 expects.append('ok ' + state_line(m) if j_ == len(steps) - 1 else None)
